@@ -135,7 +135,7 @@ rpsl = {{ package = "rpsl-lite", path = "{models}/rpsl-lite" }}
 quick-xml = {{ path = "{models}/quick-xml" }}
 tokio = {{ path = "{models}/tokio" }}
 tracing = {{ package = "verif-tracing", path = "{models}/tracing" }}
-vcollections = {{ path = "{models}/vcollections" }}
+vcollections = {{ path = "{models}/vcollections", features = ["cap4"] }}
 
 [lints.rust]
 unexpected_cfgs = {{ level = "allow", check-cfg = ['cfg(kani)'] }}
@@ -360,7 +360,10 @@ def main():
     for crate in crates:
         os.makedirs(os.path.join(args.out, crate), exist_ok=True)
         copy_src(args.repo, crate, args.out, kani, rewrite_log)
-        inject(args.out, crate, INJECT_KANI if kani else INJECT_NATIVE, "kani" if kani else "test", inject_log)
+        # in the agent build the netconf crate is a plain dependency: its harness modules are
+        # left out (they are sized for the 14-slot vcollections of the netconf build)
+        if not (kani and crate == "netconf" and "junos-agent" in crates):
+            inject(args.out, crate, INJECT_KANI if kani else INJECT_NATIVE, "kani" if kani else "test", inject_log)
         if crate == "netconf":
             toml = NETCONF_TOML_KANI if kani else NETCONF_TOML_NATIVE
         elif crate == "junos-agent":
